@@ -157,6 +157,13 @@ struct Script<'a> {
 }
 
 fn listing(p: &Path) -> Vec<String> {
+    shim_pause(true);
+    let v = listing_inner(p);
+    shim_pause(false);
+    v
+}
+
+fn listing_inner(p: &Path) -> Vec<String> {
     let mut v: Vec<String> = std::fs::read_dir(p).map(|rd| rd.flatten().map(|e| e.file_name().to_string_lossy().to_string()).collect()).unwrap_or_default();
     v.sort();
     v
@@ -186,11 +193,28 @@ fn layer_data_json<M: Serialize>(d: &LayerData<M>) -> Value {
            "metadata": md.as_ref().map(toml_to_json), "env_probe": probe_env(&d.env)})
 }
 
+/// Suspends / resumes the fault injector (if preloaded) around the test buildpack's own file operations:
+/// the faults are meant for libcnb's calls, not for the scripted callbacks.
+fn shim_pause(on: bool) {
+    let f = unsafe { libc::dlsym(libc::RTLD_DEFAULT, c"vp_shim_pause".as_ptr()) };
+    if !f.is_null() {
+        let f: extern "C" fn(i32) = unsafe { std::mem::transmute(f) };
+        f(i32::from(on));
+    }
+}
+
 /// Builds the LayerResult a create/update callback returns, and performs its file-system side effects.
 fn result_from<M>(spec: &Value, metadata: M, layer_path: &Path) -> Result<LayerResult<M>, TErr> {
     if let Some(e) = spec.get("err").and_then(Value::as_str) {
         return Err(TErr(e.to_string()));
     }
+    shim_pause(true);
+    let r = result_from_inner(spec, metadata, layer_path);
+    shim_pause(false);
+    r
+}
+
+fn result_from_inner<M>(spec: &Value, metadata: M, layer_path: &Path) -> Result<LayerResult<M>, TErr> {
     for f in jarr(spec, "write_files") {
         let f = f.as_array().unwrap();
         let p = layer_path.join(f[0].as_str().unwrap());
@@ -299,6 +323,16 @@ pub fn handle(st: &mut State, req: &Value) -> Value {
                 store: None,
             });
             json!({"ok": true})
+        }
+        // start / stop the fault injector's counted window (no-op when fsshim is not preloaded)
+        "arm" => {
+            let f = unsafe { libc::dlsym(libc::RTLD_DEFAULT, c"vp_shim_arm".as_ptr()) };
+            if f.is_null() {
+                return json!({"armed": false});
+            }
+            let f: extern "C" fn(i32) = unsafe { std::mem::transmute(f) };
+            f(i32::from(jbool(req, "on")));
+            json!({"armed": true})
         }
         "drop_refs" => {
             st.refs.clear();
